@@ -14,7 +14,19 @@
 mod verif_c15_layout {
     use super::*;
     use crate::structures::DescriptorTablePointer;
-    use core::mem::{align_of, offset_of};
+    use core::mem::offset_of;
+
+    // Raw reads through a byte pointer (no `transmute` to a fixed-size array: a
+    // size change must FAIL the size obligation, not break the build).
+    unsafe fn rd8<T>(v: &T, o: usize) -> u8 {
+        unsafe { core::ptr::read((v as *const T as *const u8).add(o)) }
+    }
+    unsafe fn rd16<T>(v: &T, o: usize) -> u16 {
+        unsafe { core::ptr::read_unaligned((v as *const T as *const u8).add(o) as *const u16) }
+    }
+    unsafe fn rd64<T>(v: &T, o: usize) -> u64 {
+        unsafe { core::ptr::read_unaligned((v as *const T as *const u8).add(o) as *const u64) }
+    }
 
     //@ obligation C15 C15.TaskStateSegment.size_0x68
     //@ obligation C15 C15.TaskStateSegment.privilege_stack_table_at_4
@@ -98,19 +110,17 @@ mod verif_c15_layout {
             iomap_base == 0x68,
             "C15.TaskStateSegment_new.iomap_base_is_0x68: field value"
         );
-        let bytes: [u8; 0x68] = unsafe { core::mem::transmute(tss) };
         assert!(
-            bytes[0x66] == 0x68 && bytes[0x67] == 0x00,
+            unsafe { rd8(&tss, 0x66) == 0x68 && rd8(&tss, 0x67) == 0x00 },
             "C15.TaskStateSegment_new.iomap_base_is_0x68: little-endian 0x0068 at bytes 0x66..0x68"
         );
         assert!(
-            i == 0x66 || i == 0x67 || bytes[i] == 0,
+            i == 0x66 || i == 0x67 || unsafe { rd8(&tss, i) } == 0,
             "C15.TaskStateSegment_new.all_other_bytes_zero: byte i == 0"
         );
         let d = TaskStateSegment::default();
-        let dbytes: [u8; 0x68] = unsafe { core::mem::transmute(d) };
         assert!(
-            dbytes[i] == bytes[i],
+            unsafe { rd8(&d, i) == rd8(&tss, i) },
             "C15.TaskStateSegment_new.all_other_bytes_zero: default() == new() bytewise"
         );
     }
@@ -135,23 +145,12 @@ mod verif_c15_layout {
         istt[k] = VirtAddr::new_truncate(ist);
         tss.interrupt_stack_table = istt;
         tss.iomap_base = iom;
-        let bytes: [u8; 0x68] = unsafe { core::mem::transmute(tss) };
-        let rd64 = |o: usize| -> u64 {
-            u64::from_le_bytes([
-                bytes[o],
-                bytes[o + 1],
-                bytes[o + 2],
-                bytes[o + 3],
-                bytes[o + 4],
-                bytes[o + 5],
-                bytes[o + 6],
-                bytes[o + 7],
-            ])
-        };
         assert!(
-            rd64(4 + 8 * n) == VirtAddr::new_truncate(rsp).as_u64()
-                && rd64(0x24 + 8 * k) == VirtAddr::new_truncate(ist).as_u64()
-                && u16::from_le_bytes([bytes[0x66], bytes[0x67]]) == iom,
+            unsafe {
+                rd64(&tss, 4 + 8 * n) == VirtAddr::new_truncate(rsp).as_u64()
+                    && rd64(&tss, 0x24 + 8 * k) == VirtAddr::new_truncate(ist).as_u64()
+                    && rd16(&tss, 0x66) == iom
+            },
             "C15.TaskStateSegment.fields_read_back_at_hardware_offsets: RSPn, IST(k+1), I/O map base"
         );
     }
@@ -178,15 +177,12 @@ mod verif_c15_layout {
         );
         let b = VirtAddr::new_truncate(base);
         let p = DescriptorTablePointer { limit, base: b };
-        let bytes: [u8; 10] = unsafe { core::mem::transmute(p) };
         assert!(
-            u16::from_le_bytes([bytes[0], bytes[1]]) == limit,
+            unsafe { rd16(&p, 0) } == limit,
             "C15.DescriptorTablePointer.limit_at_0: bytes 0..2 are the limit, little endian"
         );
         assert!(
-            u64::from_le_bytes([
-                bytes[2], bytes[3], bytes[4], bytes[5], bytes[6], bytes[7], bytes[8], bytes[9]
-            ]) == b.as_u64(),
+            unsafe { rd64(&p, 2) } == b.as_u64(),
             "C15.DescriptorTablePointer.base_at_2: bytes 2..10 are the base, little endian"
         );
     }
